@@ -187,7 +187,32 @@ Definition bf_deserialize (bs : list N) : outcome bloom :=
         else Ok (mkBloom seed nh counted ws))
     end).
 
-(* bytes deserialize() allocates for the bit array of an accepted header (the harness flags a
+(* The same reader, instrumented: it follows deserialize()'s control flow and returns, next to the outcome, the
+   bytes requested for the bit array on the way (the one allocation whose size the input controls:
+   vec![0u64; num_words], reached after the header checks and, for the long form, after the length check; error
+   strings and the struct itself are small and not counted). *)
+Definition bf_deserialize_cost (bs : list N) : outcome bloom * N :=
+  match bf_parse_header bs with
+  | Ok (is_empty, nh, seed, num_longs) =>
+      if is_empty then (Ok (mkBloom seed nh 0 (repeat 0 (N.to_nat num_longs))), 8 * num_longs)
+      else
+        match read_u64 (skipn 24 bs) with
+        | None => (Err, 0)
+        | Some (raw, rest) =>
+            if (N.of_nat (length rest) <? 8 * num_longs) then (Err, 0) else
+            (* vec![0u64; num_words] happens here; a wrong count is detected only afterwards *)
+            (obind (read_words (N.to_nat num_longs) rest) (fun ws =>
+             let counted := popcount_words ws in
+             if negb (raw =? zN GenBloom.DIRTY_BITS_VALUE) && negb (raw =? counted) then Err
+             else Ok (mkBloom seed nh counted ws)),
+             8 * num_longs)
+        end
+  | Err => (Err, 0)
+  | Stuck => (Stuck, 0)
+  end.
+
+(* closed form of the second component (Proofs/BloomCodec.v: deserialize_cost_spec), used by the correspondence
+   driver, which must not build a 2^24-word list just to learn its size: bytes deserialize() allocates for the bit array of an accepted header (the harness flags a
    peak above 64 * input length + 1 MiB); 0 when the header is rejected or, for the long form,
    when the input is too short to hold the announced array *)
 Definition bf_alloc_bytes (bs : list N) : N :=
